@@ -275,12 +275,20 @@ def correspondence(ctx, model_ok=True):
             # event header leaves a shorter decimal (the number of events read from the last line is then wrong)
             if i == nfiles:
                 d = G.gen_doc(ctx.rng, fmt="Oscar2013", max_events=1, max_mult=1)
+                for _ in range(50):
+                    if d["events"] and d["events"][0]["rows"]:
+                        break                   # single-particle events are the point of this file: draw until there is a row
+                    d = G.gen_doc(ctx.rng, fmt="Oscar2013", max_events=1, max_mult=1)
                 d["events"] = [{"rows": ([d["events"][0]["rows"][0]] if d["events"][0]["rows"] and j % 3 == 0 else []),
                                 "b": "0.000", "yn": "no"} for j in range(12 if ctx.quick else 23)]
                 base = {"kind": "oscar", "doc": d}
                 text = G.render(d)
             else:
                 d = J.gen_doc(ctx.rng, max_events=1, max_mult=1)
+                for _ in range(50):
+                    if d["events"] and d["events"][0]["rows"]:
+                        break
+                    d = J.gen_doc(ctx.rng, max_events=1, max_mult=1)
                 d["events"] = [dict(d["events"][0], rows=(d["events"][0]["rows"][:1] if j % 4 == 0 else [])) for j in range(12)]
                 base = {"kind": "jet", "doc": d}
                 text = J.render(d)
